@@ -13,6 +13,7 @@ import (
 	"github.com/nspcc-dev/neo-go/pkg/config"
 	"github.com/nspcc-dev/neo-go/pkg/core"
 	"github.com/nspcc-dev/neo-go/pkg/core/block"
+	"github.com/nspcc-dev/neo-go/pkg/core/native/nativenames"
 	"github.com/nspcc-dev/neo-go/pkg/core/transaction"
 	"github.com/nspcc-dev/neo-go/pkg/neotest"
 	"github.com/nspcc-dev/neo-go/pkg/util"
@@ -225,6 +226,13 @@ func (w *world) extend(isScene bool) {
 	}
 	txs := w.gen.NextTxs(4)
 	txs = append(txs, own...)
+	if isScene && h >= 2 {
+		// a transaction signed by a MAJORITY multisignature: another subset of the signers makes another valid copy of it
+		// (the "pool has it" states pool that copy)
+		if tx := w.gen.Tx(w.gen.Committee(), w.gen.E.NativeHash(w.t, nativenames.Policy), "setStoragePrice", int64(60000+w.rnd.Intn(30000))); tx != nil && w.ref.PoolTx(tx) == nil {
+			txs = append(txs, tx)
+		}
+	}
 	for len(txs) < 3 || len(txs)%2 == 0 {
 		var p neotest.Signer = w.gen.E.Validator
 		if h > 0 {
